@@ -49,6 +49,11 @@ def c10(tier, seed):
             out.append({'line': setup + './pargs %s' % word, 'files': {'pargs': PARGS}, 'expect_stdout': _argv([val]), 'area': 'expand_env:unquoted'})
     out.append({'line': 'sh -c "exit 7"; ./pargs "$?" $?', 'files': {'pargs': PARGS}, 'expect_stdout': _argv(['7', '7']), 'area': 'expand_env:status'})
     out.append({'line': './pargs "a$?b"', 'files': {'pargs': PARGS}, 'expect_stdout': _argv(['a0b']), 'area': 'expand_env:status'})
+    # a name ends at the first character that is not an ASCII letter, digit or underscore -- also when that character is a letter of another script
+    out.append({'line': 'A=val; ./pargs "$Aé" "x$Aßy${A}z" $A名', 'files': {'pargs': PARGS}, 'expect_stdout': _argv(['valé', 'xvalßyvalz', 'val名']), 'area': 'expand_env:name-ends-at-non-ascii'})
+    # the word list of a `for` in a script: arguments first, then variables -- an inserted value is not searched for positional parameters
+    out.append({'script': "read L <<< 'a$1b'\nfor x in $L $1 $@\n    ./pargs \"$x\"\ndone\n", 'args': ['P', 'Q'], 'files': {'pargs': PARGS},
+                'expect_stdout': _argv(['a$1b']) + _argv(['P']) + _argv(['P']) + _argv(['Q']), 'area': 'expand_env:for-list:value-not-searched-for-arguments'})
     # a word that spans several lines: the text around a reference is kept, references on every line are expanded
     out.append({'line': 'A=x; ./pargs "a\n$A" "b\n${A}c" "$A\nd${A}"', 'files': {'pargs': PARGS}, 'expect_stdout': _argv(['a\nx', 'b\nxc', 'x\ndx']), 'area': 'expand_env:multi-line-word'})
     out.append({'line': "sh -c 'echo $PPID' > f; X=$(cat f); ./pargs \"$$\" > g; Y=$(cat g); test \"[$X]\" = \"$Y\" && echo same", 'files': {'pargs': PARGS},
@@ -95,6 +100,7 @@ def c11(tier, seed):
         {'line': './pargs $(echo a) $(echo b) `echo c` x`echo d`', 'files': {'pargs': PARGS}, 'expect_stdout': _argv(['a', 'b', 'c', 'xd']), 'area': 'substitution:several-in-one-line'},
         {'line': './pargs $(echo a | tr a b)', 'files': {'pargs': PARGS}, 'expect_stdout': _argv(['b']), 'area': 'substitution:pipeline'},
         {'line': 'X=$(echo v); ./pargs "$X"', 'files': {'pargs': PARGS}, 'expect_stdout': _argv(['v']), 'area': 'substitution:assignment'},
+        {'line': 'X=old; X=$(./two); ./pargs "$X"; V=$(./two) printenv V', 'files': {'pargs': PARGS, 'two': '#!/bin/sh\necho l1\necho l2\n'}, 'expect_stdout': _argv(['l1\nl2']) + 'l1\nl2\n', 'area': 'substitution:assignment:multi-line-output'},
         {'line': 'cat <<< $(echo hs)', 'expect_stdout': 'hs\n', 'area': 'substitution:here-string'},
         {'line': './pargs x$(nosuchcmd-xyz)y', 'files': {'pargs': PARGS}, 'expect_stdout': _argv(['xy']), 'area': 'substitution:not-found', 'timeout': 5},
         {'line': './pargs x$(echo >)y', 'files': {'pargs': PARGS}, 'expect_stdout': _argv(['xy']), 'area': 'substitution:invalid', 'timeout': 5},
@@ -244,6 +250,7 @@ def c12(tier, seed):
         {'line': 'mkdir d .hid d/.hs; touch d/x d/.h .hid/x d/.hs/x; ./pargs */*/x', 'files': pop, 'expect_stdout': _argv(['*/*/x']), 'area': 'expand_glob:hidden-directory'},
         {'line': 'mkdir d .hid; touch d/x .hid/x .hid/y; ./pargs .hid/* .h*/y', 'files': pop, 'expect_stdout': _argv(['.hid/x', '.hid/y', '.hid/y']), 'area': 'expand_glob:hidden-directory:spelled-out'},
         {'line': 'mkdir d; touch d/.only; ./pargs L d/* R', 'files': pop, 'expect_stdout': _argv(['L', 'd/*', 'R']), 'area': 'expand_glob:only-hidden-matches'},
+        {'line': 'mkdir -p t/m; touch t/m/.hid t/m/v1 t/m/v2; ./pargs t/m/* $HOME/t/m/v*', 'files': pop, 'expect_stdout_prefix': _argv(['t/m/v1', 't/m/v2']), 'expect_stdout_not_contains': '.hid', 'area': 'expand_glob:hidden-file-in-a-deeper-directory'},
     ]
     return out
 
@@ -288,6 +295,8 @@ def c13(tier, seed):
         out.append({'line': "V='%s'; ./pargs $(echo $V $(echo 1)) \"$(echo $(echo $V))\"" % v, 'files': {'pargs': PARGS}, 'expect_stdout': _argv([v + ' 1', v]), 'expect_only_files': ['pargs'], 'area': 'data:variable:inside-nested-substitution'})
     # KNOWN FINDING (recorded, not repaired): a value that contains $(...) or backquotes is executed by the later substitution pass
     out.append({'line': "V='$(touch pwned)'; ./pargs $V \"$V\"", 'files': {'pargs': PARGS}, 'expect_stdout': _argv(['$(touch pwned)', '$(touch pwned)']), 'expect_only_files': ['pargs'], 'area': 'data:value-with-substitution-syntax'})
+    # an empty backquote pair in front does not shift where the later outputs (and their data tags) go
+    out.append({'line': './pargs `` x `./gt` y', 'files': {'pargs': PARGS, 'gt': '#!/bin/sh\necho "a>b"\n'}, 'expect_stdout_contains': _argv(['', 'x', 'a>b', 'y']), 'expect_only_files': ['pargs', 'gt'], 'area': 'data:substitution:after-an-empty-backquote-pair'})
     names = ['a>b', 'x;y', 'p|q', 'r&', '#h', '2>&1']
     files = dict({'pargs': PARGS}, **{n: '' for n in names})
     out.append({'line': './pargs *', 'files': files, 'expect_stdout': _argv(sorted(names + ['pargs'])), 'expect_only_files': sorted(names + ['pargs']), 'area': 'data:glob'})
@@ -312,6 +321,8 @@ def c17(tier, seed):
         {'line': "alias n=\"./pargs 'a b'\"; n", 'files': P, 'expect_stdout': _argv(['a b']), 'area': 'alias:inner-quotes'},
         {'line': "alias n='./pargs a | cat'; n", 'files': P, 'expect_stdout': _argv(['a']), 'area': 'alias:pipe-in-value'},
         {'line': "alias my-n.1_x='./pargs ok'; my-n.1_x", 'files': P, 'expect_stdout': _argv(['ok']), 'area': 'alias:name-charset'},
+        {'line': "alias ll='./pargs a'; alias LL='./pargs b'; alias | sort; ll; LL", 'files': P, 'expect_stdout': "alias LL='./pargs b'\nalias ll='./pargs a'\n" + _argv(['a']) + _argv(['b']), 'area': 'alias:names-differing-in-case'},
+        {'line': "alias n=; unalias n; echo rc=$?; alias", 'files': P, 'expect_stdout': 'rc=0\n', 'area': 'alias:unalias-empty-value'},
         {'line': "alias -x='./pargs hi'; alias -x; alias x-y='./pargs yo'; alias x-y; alias .z='./pargs zz'; alias .z", 'files': P,
          'expect_stdout': "alias -x='./pargs hi'\nalias x-y='./pargs yo'\nalias .z='./pargs zz'\n", 'area': 'alias:name-charset:list-one'},
         {'line': "alias g-s='./pargs \"x y\"'; g-s", 'files': P, 'expect_stdout': _argv(['x y']), 'area': 'alias:name-charset:inner-quotes'},
@@ -343,10 +354,12 @@ def c19(tier, seed):
              ('2 ^ 2 ^ 3', '256'), ('(2 ^ 2) ^ 3', '64'), ('10 - (2 - 3)', '11'), ('1 + 2 - 3 + 4', '4'), ('3 * 4 / 6', '2'), ('3 * (4 / 6)', '0'),
              ('(1.5 + 1) * 2', '5'), ('2 * (0.25 + 0.25)', '1'), ('(7.0) / 2', '3.5'), ('((1.5)) + 1', '2.5'), ('1 + (2 * (3 + 0.5))', '8'),
              ('1.5 + 1', '2.5'), ('7.0 / 2', '3.5'), ('2 * 1.25', '2.5'), ('1 / 2.0', '0.5'), ('2.0 ^ 3', '8'), ('0.5 + 0.25', '0.75'),
-             ('2147483648 + 2147483648', '4294967296'), ('9223372036854775807 + 0', '9223372036854775807'), ('1+2', '3'), ('  1   +   2  ', '3')]
+             ('2147483648 + 2147483648', '4294967296'), ('9223372036854775807 + 0', '9223372036854775807'), ('1+2', '3'), ('  1   +   2  ', '3'),
+             ('+1 + 2', '3'), ('-1 + 2', '1'), ('(+3) * 2', '6')]
     out = [{'line': l, 'expect_stdout': e + '\n', 'area': 'calculator:precedence', 'timeout': 5} for l, e in cases]
     for l in ('1 / 0', '9223372036854775807 + 1', '2 ^ 64', '99999999999999999999 + 1', '2 ^ (0 - 1)', '1 / 0.0', '(0 - 9223372036854775807 - 1) / (0 - 1)',
-              '9223372036854775807 * 2', '1 +', '(1 + 2', '1 + 2)', '2 ^ 70', '0 ^ 0', '1.0 / 0'):
+              '9223372036854775807 * 2', '1 +', '(1 + 2', '1 + 2)', '2 ^ 70', '0 ^ 0', '1.0 / 0',
+              '170141183460469231731687303715884105728 - 1', '340282366920938463463374607431768211456 + 0', '-170141183460469231731687303715884105729 + 1'):
         out.append({'line': l + '; echo alive', 'expect_stdout_last_line': 'alive', 'area': 'calculator:never-crashes', 'timeout': 5})
     return out
 
@@ -446,6 +459,7 @@ def c04(tier, seed):
         # no space on either side of `<` / `<<<`
         {'line': 'cat<inf; cat< inf; wc -l<inf; cat<<<hi; cat<<< hi2; cat<inf|cat', 'files': dict(F, inf='FROMFILE\n'), 'expect_stdout': 'FROMFILE\nFROMFILE\n1\nhi\nhi2\nFROMFILE\n', 'area': 'redirect:stdin:no-space-in-front'},
         {'line': 'cat<nonexistent-zz; echo rc=$?', 'files': F, 'expect_stdout': 'rc=1\n', 'area': 'redirect:stdin:no-space-in-front'},
+        {'line': './pargs éa<inf; ./pargs é<inf; cat é<inf', 'files': dict(F, pargs=PARGS, inf='FROMFILE\n', **{'é': 'EFILE\n'}), 'expect_stdout': '[éa]\n[é]\nEFILE\n', 'area': 'redirect:stdin:no-space-in-front:multi-byte'},
         {'line': 'cat <<< word < inf; cat < inf <<< word2', 'files': dict(F, inf='FROMFILE\n'), 'expect_stdout': 'FROMFILE\nword2\n', 'area': 'redirect:stdin:last-wins'},
         {'line': 'alias nosuch-zz 2> f; echo --; cat f', 'files': F, 'expect_stdout_prefix': '--\n', 'expect_stdout_contains': 'nosuch-zz', 'area': 'redirect:builtin-stderr'},
         {'line': 'alias nosuch-zz > f 2>&1; echo --; cat f', 'files': F, 'expect_stdout_prefix': '--\n', 'expect_stdout_contains': 'nosuch-zz', 'area': 'redirect:builtin-dup'},
@@ -500,6 +514,8 @@ def c09(tier, seed):
         {'line': 'A="p=q:r"; ./pargs "$A"', 'files': F, 'expect_stdout': '[p=q:r]\n', 'area': 'vars:value-with-equals'},
         {'line': 'A=; ./pargs "[$A]"', 'files': F, 'expect_stdout': '[[]]\n', 'area': 'vars:empty-value'},
         {'line': 'export A="a b"; ./envp', 'files': F, 'expect_stdout': '[a b]\n', 'area': 'vars:export-value-with-space'},
+        {'line': 'S="x y"; export T=$S; printenv T; V=\'it"s\'; export W="$V"; printenv W', 'files': F, 'expect_stdout': 'x y\nit"s\n', 'area': 'vars:export-value-from-an-expansion'},
+        {'line': 'export B=old; read A B <<< "one two three"; printenv B; ./pargs "$A" "$B"', 'files': F, 'expect_stdout': 'two three\n' + _argv(['one', 'two three']), 'area': 'read:into-an-exported-name'},
         {'line': 'read a b c <<< "1 2 3 4"; ./pargs "$a" "$b" "$c"', 'files': F, 'expect_stdout': _argv(['1', '2', '3 4']), 'area': 'read'},
         {'line': 'read a b <<< "1"; ./pargs "[$a]" "[$b]"', 'files': F, 'expect_stdout': _argv(['[1]', '[]']), 'area': 'read'},
         {'line': 'read a <<< "x y z"; ./pargs "$a"', 'files': F, 'expect_stdout': _argv(['x y z']), 'area': 'read'},
@@ -603,6 +619,10 @@ def c15(tier, seed):
         {'script': 'for x in a b\n    ./st $x 3\n    break\ndone\n', 'files': F, 'expect_stdout': 'a\n', 'expect_rc': 3, 'area': 'script:status:loop-with-break'},
         {'script': './st z 0\nfor x in a b\n    ./st $x 4\ndone\n', 'files': F, 'expect_stdout': 'z\na\nb\n', 'expect_rc': 4, 'area': 'script:status:loop'},
         {'script': 'function g {\n    ./st g 2\n}\nfunction h() {\n    g\n}\nh\necho "st=$?"\n', 'files': F, 'expect_stdout': 'g\nst=2\n', 'area': 'function:nested-status'},
+        {'script': 'function f() {\n    echo one\n}\nf\nfunction f() {\n    echo two $1\n}\nsource lib.sh\nf x\n', 'files': dict(F, **{'lib.sh': 'function g() {\n    echo g\n}\n'}), 'expect_stdout_any': ['two\ntwo x\n', 'one\ntwo x\n'], 'area': 'function:defined-again'},
+        {'script': 'function f() {\n    echo mine\n}\nsource lib.sh\nf\n', 'files': dict(F, **{'lib.sh': 'function f() {\n    echo lib\n}\n'}), 'expect_stdout': 'lib\n', 'area': 'function:defined-again:by-a-sourced-file'},
+        {'script': 'for x in $1 $@\n    ./pargs "$x"\ndone\nfunction w() {\n    for y in $0 $2\n        ./pargs "$y"\n    done\n}\nw a b\n', 'args': ['P', 'Q'], 'files': F,
+         'expect_stdout': _argv(['P']) + _argv(['P']) + _argv(['Q']) + _argv(['w']) + _argv(['b']), 'area': 'script:arguments:in-a-for-list'},
         {'script': 'function a-b_c() {\n    echo "$0:$1"\n}\na-b_c x\n', 'files': F, 'expect_stdout': 'a-b_c:x\n', 'area': 'function:name-charset'},
         {'script': 'source lib.sh\necho "st=$?"\n', 'files': dict(F, **{'lib.sh': './st a 3\n'}), 'expect_stdout': 'a\nst=3\n', 'area': 'source:status'},
         {'script': 'source l1.sh\necho "$V3"\n', 'files': dict(F, **{'l1.sh': 'source l2.sh\n', 'l2.sh': 'source l3.sh\n', 'l3.sh': 'V3=deep\n'}), 'expect_stdout': 'deep\n', 'area': 'source:chain'},
@@ -698,7 +718,8 @@ def c05(tier, seed):
     alpha = ['>', '<', '|', '&', ';', "'", '"', '$', '(', ')', '{', '}', 'a', ' ', '`', '2', '.', '\\', '*', '~', '=']
     n = 3 if tier == 'quick' else 4
     fixed = ['> f', '<', '2>&1', 'ls | > f', 'echo $(echo >)', 'echo {2147483646..2147483647}', '99999999999999999999 + 1', '2 ^ 64', '2 ^ -1',
-             'echo `', 'echo $(', 'echo ${', 'echo "', "echo '", 'a=', '=a', 'A="', "B='", 'export C="', "export D='", 'A="" B=\'\'', 'cd a b', 'alias', 'unalias', 'export', 'source', 'fg', 'bg', 'exec', 'exit x; echo no',
+             'echo `', 'echo $(', 'echo ${', 'echo "', "echo '", 'a=', '=a', 'A="', "B='", 'export C="', "export D='", 'A="" B=\'\'', "alias e=' '; e; echo after", "alias nop='# nothing'; nop x | cat", '\\ ', 'echo a;\\ ;echo b', 'true&&\\\\\\ ',
+             '170141183460469231731687303715884105728 - 1', '-170141183460469231731687303715884105729 + 1', 'cd a b', 'alias', 'unalias', 'export', 'source', 'fg', 'bg', 'exec', 'exit x; echo no',
              '(', ')', '((', '))', '{', '}', '$', '$$$', '\\', '&&', '||', ';;', '| |', '& &', 'echo {1..}', 'echo {..1}', 'echo {a..b}', 'echo {1..2..0}',
              '1 +', '+ 1', '1 / 0', '(1', '1)', '2 ^ 99999', '1.5.5 + 1', 'é' * 50, 'echo ' + 'a' * 5000, 'echo ' + ' '.join(['x'] * 500)]
     allc = [''.join(t) for k in range(1, n + 1) for t in itertools.product(alpha, repeat=k)]
